@@ -16,9 +16,9 @@ META = {
                    "parameters and the requested mode / workers; best_parameters is a grid point whose trial mean is "
                    "optimal in the task's direction, best_score is that mean; resolve() configures the optimizer with "
                    "best_parameters and runs it.",
-    "bounds": {"quick": "grids <=3 points x 2 trials, MIN and MAX; ParameterGrid shapes up to 3x3x2 / two sub-grids",
+    "bounds": {"quick": "grids <=3 points x 1-2 trials (one trial: NaN std, as pandas), MIN and MAX; ParameterGrid shapes up to 3x3x2 / two sub-grids",
                "thorough": "4 points x 2 trials, 3 points x 3 trials"},
-    "outside": "n_trials = 1 (pandas yields NaN std); real process pools / pickling of the optimizer; export_results",
+    "outside": "real process pools / pickling of the optimizer; export_results; n_trials = 0",
     "stubs": ["pandas.DataFrame -> pandas-lite (exactly the calls execute() makes; differentially validated against "
               "pandas 2.3.3 with ties each run; std replaced by variance: only its rank is consumed)",
               "ProcessPoolExecutor -> in-process pool model (map)", "pydantic-lite"],
@@ -184,7 +184,7 @@ def twin():
 def obligations(tier):
     th = tier == "thorough"
     obs = [Ob(f"grid[{name}]", ob_grid(name), 300) for name in GRIDS]
-    shapes = [(1, 2), (2, 2), (3, 2)] + ([(4, 2), (3, 3), (2, 3)] if th else [])
+    shapes = [(1, 2), (2, 2), (3, 2), (2, 1), (3, 1)] + ([(4, 2), (3, 3), (2, 3), (4, 1)] if th else [])
     for n_points, n_trials in shapes:
         for d in ("min", "max"):
             obs.append(Ob(f"execute[points={n_points},trials={n_trials},{d}]",
